@@ -307,6 +307,13 @@ def compare(ctx, verdicts, payloads):
             for kf in vj.get("kf", []):
                 kfc[kf] = kfc.get(kf, 0) + 1
     ctx.extra["kf_instances"] = dict(sorted(kfc.items()))
+    rej = {}
+    for cid, vjs in verdicts.items():
+        for vj in vjs:
+            if vj.get("rejected"):
+                key = f"{payloads[cid]['kind']}:{vj['ev']}"
+                rej[key] = rej.get(key, 0) + 1
+    ctx.extra["rejected_by_event"] = dict(sorted(rej.items()))
 
 
 # ---- run --------------------------------------------------------------------------------------------------
